@@ -86,10 +86,21 @@ def gen_fs(r):
             ops.append(["replay", r.randint(0, 20)])
         else:
             ops.append([k])
-    return {"fs": {"cfg": "crash", "ctx": c13.gen_ctx(r, simple=r.chance(0.5)),
-                   "init": r.choice([None, {"next": r.choice([0, 7, 300]), "received": "unknown"}]),
-                   "ops": ops, "crash": {"mode": "none"},
-                   "wall_steps": [r.choice([0.0, 0.0, 0.0, 0.4, 1.0, 3.0, 3600.0, -1.0, -3600.0]) for _ in range(r.randint(1, 3))]}}
+    f = {"cfg": "crash", "ctx": c13.gen_ctx(r, simple=r.chance(0.5)),
+         "init": r.choice([None, {"next": r.choice([0, 7, 300]), "received": "unknown"},
+                           {"next": r.choice([0, 7]), "received": {"index": 0, "bitfield": 0}}]),
+         "ops": ops, "crash": {"mode": "none"},
+         "wall_steps": [r.choice([0.0, 0.0, 0.0, 0.4, 1.0, 3.0, 3600.0, -1.0, -3600.0]) for _ in range(r.randint(1, 3))]}
+    if r.chance(0.3):
+        # recording the state fails now and then (full disk, I/O error): the request during which that happens may be
+        # lost, but what the files say must never make a later lifetime accept again what an earlier one accepted
+        f["cfg"] = "io"
+        rules = []
+        for _ in range(r.choice([1, 1, 2])):
+            op, en = r.choice(c13.IO_KINDS)
+            rules.append({"op": op, "nth": r.choice([0, 0, 1, 1, 2, 3, 4, 6]), "count": r.choice([1, 1, 1, 2, 3]), "errno": en})
+        f["io_errors"] = rules
+    return {"fs": f}
 
 
 def gen_group(r):
@@ -483,6 +494,8 @@ def execute_fs(sim, scn):
         sim.log("ev", *e)
         sig.update(repr(e[:3]).encode())
     sim.probe("file_backed_state_loss")
+    if run.stats.get("io_error"):
+        sim.probe("fs_io_error_fired", run.stats["io_error"])
     for name in ("echo_demanded", "echo_recovered", "stale_echo_rejected"):
         if run.probes.get(name):
             sim.probe("fs_" + name, run.probes[name])
